@@ -271,18 +271,21 @@ PROPS = {
         "explanation": "C13.* + Tie.* theorems; ring stream: implementation vs exact arithmetic, vs the mirrored model, and the laws on the implementation's own outputs.",
     },
     "C07": {
-        "modules": ["RsddModel.Props.C07Bdd"],
-        "streams": [WMC_STREAM],
+        "modules": ["RsddModel.Props.C07Bdd", "RsddModel.Props.C07Sdd"],
+        "streams": [WMC_STREAM, HASH_STREAM],
         "rule": "diagrams taken from builder pools (three largest distinct + one random per program), random orders; normalised field weights for a "
                 "random exported prime, arbitrary integer weights 0..5, dyadic real weights; non-trivial = diagram has a node below a node",
         "trusted": ["modelled not verified: memoisation in scratch cells (C10), f64 (dyadic weights only)",
-                    "SDD and decision-DNNF counts are covered by the sdd/td streams once those models exist (BDD part proved here)"],
+                    "decision-DNNF results are free diagrams (C06), so wmc_free applies to them; SDD counts: C07Sdd (mirror of the SDD fold)"],
         "assumptions": ["diagram is free (no variable twice on a path) — true of every ROBDD/decision-DNNF (C02/C06)"],
         "level_text": "Kernel-checked: for every free diagram, commutative semiring and normalised weights the count equals the brute-force sum over all "
                       "assignments (wmc_eq_bruteforce), independent of order and complement edges (wmc_order_independent, wmc_complement), evaluation "
                       "agrees with the denoted function (evaluate_agrees), and for reduced ordered BDDs with arbitrary weights the count is the "
-                      "order-recursive sum over the variables each sub-function depends on (wmc_arbitrary_weights).",
-        "level_note": "Trusted: Lean kernel; allowed axioms; harness+driver. Tree-level fold (sharing/memo is C10's subject). SDD part: see C03/C04 status in DESIGN.md.",
+                      "order-recursive sum over the variables each sub-function depends on (wmc_arbitrary_weights). "
+                      "SDDs: for every decision diagram whose nodes' primes form a partition and whose elements are semantically decomposable the count is the "
+                      "brute-force sum (wmc_sdd, wmc_sdd_complement), hence for every result of the SDD builder under any vtree, compression on or off "
+                      "(run_wmc, run_wmc_any), and evaluation agrees with the denoted function (run_evaluate).",
+        "level_note": "Trusted: Lean kernel; allowed axioms; harness+driver. Tree-level fold (sharing/memo is C10's subject).",
         "explanation": "C07Bdd.* theorems; wmc stream compares implementation counts with brute-force sums and the mirrored fold.",
     },
     "C08": {
@@ -518,7 +521,7 @@ PROPS = {
         "explanation": "C09.* theorems; up stream: every observation vs brute-force entailment / fixpoint / flag / hash-vs-residual, pop vs the earlier observation, and exact equality with the mirrored model incl. watch lists.",
     },
     "C11": {
-        "modules": ["RsddModel.Props.C11Bdd", "RsddModel.Props.C06"],
+        "modules": ["RsddModel.Props.C11Bdd", "RsddModel.Props.C11", "RsddModel.Props.C06"],
         "streams": [HASH_STREAM],
         "rule": "one program of builder operations evaluated in five builders (ROBDD under two orders, compressing SDD builder under one vtree, "
                 "uncompressed SDD builder under another, semantic-hash SDD builder) and CNFs compiled bottom-up and top-down under two orders; the "
@@ -531,9 +534,12 @@ PROPS = {
         "level_text": "Kernel-checked: the hash of a free diagram (every ROBDD of every order, every decision-DNNF) with weights summing to one is the "
                       "weighted sum of the function it denotes, so diagrams of one function hash equally whatever the order or history "
                       "(same_function_same_hash, hash_is_denotational), the negation hashes to one minus the hash (neg_hash_add, neg_hash); the "
-                      "decision-DNNF store identified by hash is correct under CollisionFree (C06.compileTopdown_correct_semantic_partial). The SDD "
-                      "half (hash of SDDs, cached = recomputed, the semantic SDD builder) is being added in Props/C11.lean; until then it rests on "
-                      "the hash stream.",
+                      "decision-DNNF store identified by hash is correct under CollisionFree (C06.compileTopdown_correct_semantic_partial). "
+                      "Across kinds: a free BDD / decision-DNNF and a builder SDD of the same function hash equally for every vtree (hash_any_kind, "
+                      "run_hash_any_kind, run_run_same_hash), SDD negation hashes to one minus (sdd_hash_neg), cached hashes equal recomputed ones over "
+                      "any sequence of calls for a fixed map (cached_eq_recomputed_bdd, cached_eq_recomputed_sdd), the semantic-hash SDD builder never "
+                      "judges equal functions different (semantic_never_splits) and, whenever the collision detector of the model does not fire, its "
+                      "results are the specified functions (semantic_correct_partial; unconditional version false by pigeonhole: collision_wrong).",
         "level_note": "Trusted: Lean kernel; allowed axioms; harness+driver. Last sentence of the property is conditional by nature (collisions).",
         "explanation": "C11Bdd.* theorems; hash stream: all representations of one function vs the defining sum, negation, cached vs recomputed, semantic builder results and equality.",
     },
